@@ -38,6 +38,10 @@ def modelObs : List String → String
     -- switching to the kernel's own address space leaves the reservation cursor where it is (the
     -- result code depends on the page tables and is not modelled: only the cursor is compared)
     s!"{(w c).toNat}"
+  | ["X"] =>
+    -- after a region has been mapped through the real Map, the leaf tables it touches translate
+    -- nothing but what was mapped: 0 stray pages
+    "0"
   | ["P", req] =>
     -- the bitmap allocator maps its own state through a reservation of `req` bytes: one page per
     -- 4096 bytes (rounded up), starting at the reserved address, consecutively
@@ -110,6 +114,7 @@ def oracle (op : List String) (obs : List Nat) : List String :=
   | ["K", c], [_, cur'] =>
     -- every region reserved before stays reserved: the next reservation must start below them
     (if cur' ≠ nat! c then ["setup-keeps-reservations"] else [])
+  | ["X"], stray :: _ => (if stray ≠ 0 then ["region-maps-nothing-else"] else [])
   | ["map"], _ => []
   | _, _ => ["bad-line"]
 
@@ -128,7 +133,8 @@ def processLine (st : St) (line : String) : IO St := do
     let obs := (toks obsS).map nat!
     let mut st := { st with stats := st.stats.bump "ops" |>.bump s!"op_{op.headD "?"}" }
     let m := modelObs op
-    let implCmp := if op.head? = some "K" then " ".intercalate ((toks obsS).drop 1) else obsS
+    let implCmp := if op.head? = some "K" then " ".intercalate ((toks obsS).drop 1)
+      else if op.head? = some "X" then (toks obsS).headD "" else obsS
     if m.trimAscii.toString ≠ implCmp.trimAscii.toString then
       IO.println s!"MISMATCH case={st.caseId} op={opS} model={m} impl={obsS}"
       st := { st with stats := st.stats.bump "mismatch" }
